@@ -216,6 +216,7 @@ def _r1(run, prog):
     K = 'cherab.core.math.transform.periodic|remainder|'
     results = []      # (interval, node)
     undec = []
+    imprecise = set()
 
     def ev(e, env):
         """Abstract value of expression: Iv, ('p',) for the period, a number, or None."""
@@ -249,6 +250,14 @@ def _r1(run, prog):
 
     def refine(test, env):
         """Split env on a comparison of a tracked variable with 0 or p. Returns (env_true, env_false) or None."""
+        if isinstance(test, ast.UnaryOp) and isinstance(test.op, ast.Not):
+            r_ = refine(test.operand, env)
+            return (r_[1], r_[0]) if r_ is not None else None
+        if isinstance(test, ast.Compare) and len(test.ops) == 1 and isinstance(test.comparators[0], ast.Name) and not isinstance(test.left, ast.Name):
+            # constant on the left: 0 > v  ==  v < 0
+            flip = {ast.Lt: ast.Gt, ast.Gt: ast.Lt, ast.LtE: ast.GtE, ast.GtE: ast.LtE}
+            if type(test.ops[0]) in flip:
+                return refine(ast.Compare(left=test.comparators[0], ops=[flip[type(test.ops[0])]()], comparators=[test.left]), env)
         if isinstance(test, ast.Compare) and len(test.ops) == 1 and isinstance(test.left, ast.Name) and test.left.id in env \
                 and isinstance(env[test.left.id], Iv):
             v = env[test.left.id]
@@ -282,6 +291,8 @@ def _r1(run, prog):
         """Returns env at fall-through or None if all paths returned."""
         for st in stmts:
             if isinstance(st, ast.Return):
+                if env.get('__imprecise__'):
+                    imprecise.add(id(st))
                 emit(ev(st.value, env), st)
                 return None
             if isinstance(st, ast.Assign) and isinstance(st.targets[0], ast.Name):
@@ -301,9 +312,13 @@ def _r1(run, prog):
                     continue
                 r = refine(st.test, env)
                 if r is None:
+                    # the test is not understood: what follows is analysed without its information, so a range that looks too wide
+                    # there is undecided, not a violation
                     undec.append(st)
-                    a = block(st.body, dict(env))
-                    b = block(st.orelse, dict(env))
+                    e2 = dict(env)
+                    e2['__imprecise__'] = True
+                    a = block(st.body, dict(e2))
+                    b = block(st.orelse, dict(e2))
                 else:
                     a = block(st.body, r[0])
                     b = block(st.orelse, r[1])
@@ -340,6 +355,8 @@ def _r1(run, prog):
         inside = (iv.lo > 0 or (iv.lo == 0)) and (iv.hi < 1 or (iv.hi == 1 and not iv.hc))
         if inside:
             run.ok('C13-R1', 'return %s' % norm(node.value)[:40], 'value / period in %s' % iv)
+        elif id(node) in imprecise:
+            run.undecided('C13-R1', 'return %s' % norm(node.value)[:40], 'reached through a test that was not interpreted')
         else:
             run.fail('C13-R1', K + 'range|%s' % norm(node.value).replace(' ', '')[:40], PXD, node.lineno,
                      "remainder returns a value in %s periods: for a tiny negative argument fmod + period rounds to the period "
@@ -561,6 +578,8 @@ def _r3(run, prog):
         nd = int([c for c in name if c.isdigit()][0])
         vector = name.startswith('samplevector')
         kind = 'points' if name.endswith('_points') else ('grid' if name.endswith('_grid') else 'range')
+        from ..inline import split_unpacking
+        fn = split_unpacking(fn)
         alias = {}
         defs = {}
         for st in fn.body:
@@ -606,7 +625,7 @@ def _r3(run, prog):
             if kind == 'range':
                 if not (isinstance(d, ast.Call) and dotted(d.func) in ('linspace', 'np.linspace') and len(d.args) == 3 and not d.keywords):
                     return "%s grid is %s, expected linspace(min, max, n) with both end points" % (AXES[k], norm(d))
-                a0, a1, a2 = norm(d.args[0]), norm(d.args[1]), inline(d.args[2])
+                a0, a1, a2 = inline(d.args[0]), inline(d.args[1]), inline(d.args[2])
                 rng = '%s_range' % AXES[k]
                 if (a0, a1, a2) != (rng + '[0]', rng + '[1]', rng + '[2]'):
                     return "%s grid is linspace(%s, %s, %s), expected linspace(%s[0], %s[1], %s[2])" % (AXES[k], a0, a1, a2, rng, rng, rng)
